@@ -589,4 +589,54 @@ def UniformDate.visit : LeafToken → Out UniformDate
 def Date.serialize (d : Date) : Out Bytes := d.iso8601
 def DateHour.serialize (d : DateHour) : Out Bytes := d.iso8601
 
+/-! ### remaining public entry points (thin wrappers) -/
+
+/-- date.rs:503 `Date::from_ymd` = `from_ymd_opt(..).unwrap()` -/
+def Date.fromYmd (year : Int) (month day : Nat) : Out Date :=
+  match Date.fromYmdOpt year month day with
+  | .ok d => .ok d
+  | _ => .panic
+
+/-- date.rs:813 `DateHour::from_ymdh` = `from_ymdh_opt(..).unwrap()` -/
+def DateHour.fromYmdh (year : Int) (month day hour : Nat) : Out DateHour :=
+  match DateHour.fromYmdhOpt year month day hour with
+  | .ok d => .ok d
+  | _ => .panic
+
+/-- date.rs:1009 `UniformDate::from_ymd` = `from_ymd_opt(..).unwrap()` -/
+def UniformDate.fromYmd (year : Int) (month day : Nat) : Out UniformDate :=
+  match UniformDate.fromYmdOpt year month day with
+  | .ok d => .ok d
+  | _ => .panic
+
+/-- `FromStr` of the four types is `parse(s.as_bytes())` (date.rs:429, 747, 947, 1093) -/
+def RawDate.fromStr (s : Bytes) : Out RawDate := RawDate.parse s
+def Date.fromStr (s : Bytes) : Out Date := Date.parse s
+def DateHour.fromStr (s : Bytes) : Out DateHour := DateHour.parse s
+def UniformDate.fromStr (s : Bytes) : Out UniformDate := UniformDate.parse s
+
+/-- `PdsDate for RawDate` (date.rs:420-427): `game_fmt` is `DotShort` -/
+def RawDate.gameFmt (r : RawDate) : Out Bytes := format r .dotShort
+def RawDate.iso8601 (r : RawDate) : Out Bytes := format r .iso8601
+
+/-- `PartialOrd::partial_cmp` (date.rs:302, and derived on the three wrappers): `Some(self.cmp(other))` -/
+def RawDate.partialCmp (a b : RawDate) : Option Ordering := some (a.cmp b)
+
+/-- ASCII bytes of a literal -/
+def ascii (s : String) : Bytes := s.toList.map fun c => UInt8.ofNat c.toNat
+
+/-- `Debug for RawDate` (date.rs:288): `RawDate { year: Y month: M day: D hour: H }` -/
+def RawDate.debugFmt (r : RawDate) : Bytes :=
+  ascii "RawDate { year: " ++ fmtInt 0 r.year ++ ascii " month: " ++ fmtInt 0 (r.month : Int) ++
+    ascii " day: " ++ fmtInt 0 (r.day : Int) ++ ascii " hour: " ++ fmtInt 0 (r.hour : Int) ++ ascii " }"
+
+/-- `Debug for Date` / `DateHour` / `UniformDate` (date.rs:446, 773, 966): the type name, a
+space, the game format -/
+def Date.debugFmt (d : Date) : Out Bytes := d.gameFmt.map fun t => ascii "Date " ++ t
+def DateHour.debugFmt (d : DateHour) : Out Bytes := d.gameFmt.map fun t => ascii "DateHour " ++ t
+def UniformDate.debugFmt (d : UniformDate) : Out Bytes := d.gameFmt.map fun t => ascii "UniformDate " ++ t
+
+/-- `Display for DateError` (date.rs:18) -/
+def dateErrorText : Bytes := ascii "unable to decode date"
+
 end Jomini.Date
